@@ -2359,7 +2359,8 @@ def aligned_coarsen_chunks(chunks: list[int], multiple: int) -> tuple[int, ...]:
     new_chunks = np.array([*new_chunks, *remainder])
     # remove 0-sized chunks
     new_chunks = new_chunks[new_chunks > 0]
-    return tuple(new_chunks.tolist())
+    # (an empty axis keeps one empty chunk)
+    return tuple(new_chunks.tolist()) or (0,)
 
 
 @wraps(chunk.coarsen)
